@@ -108,7 +108,7 @@ def _sset(items):
 def r2(ctx):
     b = ctx.fbody(name="update_from_trade", self_adt=POS, trait="")
     eff = _effects(ctx, b)
-    rets = b.local_cases(0)
+    rets = b.expanded_cases(0)
     Q, q, f, p, pnl, fe, fx, t = F("Q"), sympy.Abs(F("tq")), F("f"), F("p"), F("pnl"), F("fe"), F("fx"), F("t")
     same = ["trades.push(trade.id)", "update_price_entry_average(trade)", "self.quantity_abs := %s" % (Q + q),
             "self.pnl_realised := %s" % sympy.simplify(pnl - f), "self.fees_enter.fees := %s" % (f + fe),
@@ -242,7 +242,7 @@ def r4(ctx):
     e, cq, cp, cf = sympy.symbols("price_entry_average closed_quantity closed_price closed_fee")
     want = {"Buy": sympy.Abs(cq) * cp - sympy.Abs(cq) * e - cf, "Sell": sympy.Abs(cq) * e - sympy.Abs(cq) * cp - cf}
     seen = set()
-    for g, term, bi in c.local_cases(0):
+    for g, term, bi in c.expanded_cases(0):
         side = (common.variant_of(g, "position_side") or {"?"})
         side = next(iter(side)) if len(side) == 1 else "?"
         try:
@@ -255,7 +255,7 @@ def r4(ctx):
     ctx.check("calculate_pnl_realised", seen == {"Buy", "Sell"}, "one formula per side", got=sorted(seen), key="arms")
     a = ctx.body(ctx.find(path="barter::engine::state::position::calculate_price_entry_average"))
     ca, cq2, tp, tq = sympy.symbols("current_price_entry_average current_quantity_abs trade_price trade_quantity_abs")
-    main = [(g, t) for g, t, bi in a.local_cases(0) if not render(t).endswith("Decimal::ZERO")]
+    main = [(g, t) for g, t, bi in a.expanded_cases(0) if not render(t).endswith("Decimal::ZERO")]
     ok = len(main) == 1
     if ok:
         try:
